@@ -87,7 +87,7 @@ class Model:
             cur = self.shape[d] if d < self.order else 0
             if isinstance(k, slice):
                 need = cur if k.stop is None else k.stop
-                if k.stop is not None and k.stop < 0:
+                if (k.stop is not None and k.stop < 0) or k.step is not None:
                     need = cur
             elif isinstance(k, list):
                 need = max(k) + 1
@@ -171,6 +171,8 @@ class EngineA:
         g = st.get("gen")
         sw = st.get("swarm")
         res = RunResult()
+        if self.prop == "C04" and sw.random() < 0.03:
+            return self._run_huge(sw, g, res)
         # swarm configuration for this run
         order = weighted(sw, [(1, 1), (2, 4), (3, 4), (4, 1)])
         shape = [sw.randint(1, 4) for _ in range(order)]
@@ -235,6 +237,25 @@ class EngineA:
                 break
         return self._finish(res)
 
+    def _run_huge(self, sw, g, res: RunResult) -> RunResult:
+        """Sparse-only scenario with modes of 2**24 .. 2**40 (see engine_a_huge)."""
+        from . import engine_a_huge
+
+        cfg = engine_a_huge.gen_init(sw)
+        res.init = cfg
+        world = self._start(cfg, res)
+        if world is None:
+            return self._finish(res)
+        counter = [0]
+        for _ in range(cfg["n_steps"]):
+            step = self._huge.gen_step(world["m"], g, counter)
+            if step is None:
+                continue
+            res.steps.append(step)
+            if not self._exec_step(world, step, len(res.steps) - 1, res):
+                break
+        return self._finish(res)
+
     def _finish(self, res: RunResult) -> RunResult:
         res.nontrivial = (
             res.stats.get("writes_effective", 0) >= 2
@@ -257,6 +278,11 @@ class EngineA:
     # -------------------------------------------------------------------- world
     def _start(self, cfg, res: RunResult):
         ttb = self.ttb
+        if cfg.get("huge"):
+            from . import engine_a_huge
+
+            self._huge = engine_a_huge.HugeScenario(self)
+            return self._huge.start(cfg, res)
         shape = tuple(cfg["shape"])
         m = Model(shape)
         self._maxext = max([MAX_EXTENT] + [s + 1 for s in shape]) if cfg.get("large") else MAX_EXTENT
@@ -299,6 +325,14 @@ class EngineA:
             stop = g.randint(ext + 1, min(self._maxext, ext + 2))
             start = g.randint(0, stop - 1)
             return slice(start if g.random() < 0.7 else None, stop, None)
+        if ext >= 2 and g.random() < 0.15:
+            # a stride (never growing): forwards or backwards, bounds given or left open
+            step = g.choice([2, 3, -1, -2, -2, -3])
+            lo = g.randrange(ext - 1)
+            hi = g.randint(lo + 1, ext - 1)
+            if step > 0:
+                return slice(lo if g.random() < 0.6 else None, hi + 1 if g.random() < 0.6 else None, step)
+            return slice(hi if g.random() < 0.6 else None, (lo - 1 if lo >= 1 else None) if g.random() < 0.6 else None, step)
         if form == "all":
             return slice(None, None, None)
         a = g.randrange(ext)
@@ -656,6 +690,13 @@ class EngineA:
 
     def _exec_step(self, w, step, i, res: RunResult) -> bool:
         """Execute one recorded step; returns False when the run must stop."""
+        if w.get("huge"):
+            if not str(step.get("op", "")).startswith("hs_"):
+                res.bump("skipped")
+                return True
+            with warnings.catch_warnings():
+                warnings.simplefilter("ignore")
+                return self._huge.exec_step(w, step, i, res)
         m: Model = w["m"]
         op = step["op"]
         with warnings.catch_warnings():
@@ -977,7 +1018,12 @@ class EngineA:
             new = d >= m.order
             if isinstance(k, slice):
                 if k.step is not None:
-                    return False
+                    # strides only inside the present extent
+                    if new or k.step == 0 or len(range(m.shape[d])[k]) == 0:
+                        return False
+                    if any(b is not None and not (0 <= b <= m.shape[d]) for b in (k.start, k.stop)):
+                        return False
+                    continue
                 if (k.start is not None and k.start < 0) or (k.stop is not None and k.stop < 0):
                     return False
                 if new and k.stop is None:
@@ -1172,6 +1218,15 @@ class EngineA:
     def simplify(self, rec):
         """Yield simpler candidate records (argument-level shrinking)."""
         init = rec["init"]
+        if init.get("huge"):
+            for j in range(len(init["subs"])):
+                c = dict(rec)
+                ci = dict(init)
+                ci["subs"] = init["subs"][:j] + init["subs"][j + 1 :]
+                ci["vals"] = init["vals"][:j] + init["vals"][j + 1 :]
+                c["init"] = ci
+                yield c
+            return
         # fewer initial nonzeros
         for j in range(len(init["subs"])):
             c = dict(rec)
